@@ -1284,6 +1284,10 @@ func GenProg(r *prng.R, cfg Cfg, pkg string) *Prog {
 		tf := &File{Name: "gen_types.go", UsesAPI: true, Decls: src, RefDecls: ref, Extern: fs}
 		g.prog.Files = append(g.prog.Files, tf, &File{Name: "plain_rotate.go", Decls: plain, Extern: pfs})
 	}
+	if cfg.Profile == "delegation" && !cfg.NoHelp {
+		src, ref, fs := delegTemplates(r, g.nextTag)
+		g.prog.Files = append(g.prog.Files, &File{Name: "gen_feed.go", UsesAPI: true, Decls: src, RefDecls: ref, Extern: fs})
+	}
 	if (cfg.Profile == "all" || cfg.Profile == "bystander") && !cfg.NoHelp {
 		imps, src, ref, fs, plain := optTemplates(r, g.nextTag)
 		g.prog.Files = append(g.prog.Files, &File{Name: "plain_opt.go", Decls: plain})
